@@ -260,16 +260,11 @@ type Obs struct {
 	Pre       string // ShouldVote(parent) of a proposal, "0" otherwise
 	Best      thor.Bytes32
 	Finalized thor.Bytes32
-	Justified string // id hex number or E<class>
+	Justified thor.Bytes32
+	JustErr   string // "" or E<class> when Justified() failed
 	Vote      string // ShouldVote(best)
 	Q         uint32
 	J, C      bool
-}
-
-func IDHex(id thor.Bytes32) string { return hx.HexN(id[:]) }
-
-func (o *Obs) String() string {
-	return fmt.Sprintf("%x %s %s %s %s %s %x %s %s", o.Code, o.Pre, IDHex(o.Best), IDHex(o.Finalized), o.Justified, o.Vote, o.Q, hx.B(o.J), hx.B(o.C))
 }
 
 // Observe reads the node's public state after an event (Justified, then ShouldVote(best), then the engine's state of
@@ -280,9 +275,9 @@ func (n *Node) Observe(code int, pre string, b *block.Block) Obs {
 	o.Best = best.Header.ID()
 	j, err := n.Engine.Justified()
 	if err != nil {
-		o.Justified = fmt.Sprintf("E%d", ErrClass(err))
+		o.JustErr = fmt.Sprintf("E%d", ErrClass(err))
 	} else {
-		o.Justified = IDHex(j)
+		o.Justified = j
 	}
 	o.Vote = Vote(n.Engine.ShouldVote(o.Best))
 	o.Finalized = n.Engine.Finalized()
@@ -312,16 +307,3 @@ func (s *Sim) SignerIndex(h *block.Header) int {
 	return -1
 }
 
-// AddrN renders a validator address as the oracle's number syntax.
-func (s *Sim) AddrN(i int) string { return hx.HexN(s.Accounts[i].Address.Bytes()) }
-
-// BlockLine renders a block for the oracle: id parent signer com score.
-func (s *Sim) BlockLine(b *block.Block) string {
-	h := b.Header()
-	signer := "0"
-	if a, err := h.Signer(); err == nil && h.Number() > 0 {
-		signer = hx.HexN(a.Bytes())
-	}
-	pid := h.ParentID()
-	return fmt.Sprintf("%s %s %s %s %x", IDHex(h.ID()), hx.HexN(pid[:]), signer, hx.B(h.COM()), h.TotalScore())
-}
